@@ -459,6 +459,8 @@ func main() {
 	c.Set("max_collateral_inputs", maxColl)
 	c.Assume("ed25519/blake2b trusted; a panic of a rule is counted as a rejection (the property does not speak about panics)")
 	c.Assume("variant 'ada-only,return-adds-tokens' has no expectation: the statement only speaks about non-ada in the collateral inputs")
+	// free-running -race pass: concurrent callers on their own inputs (state the library shares between calls)
+	c.RaceAudit("c32")
 	c.Finish()
 }
 
